@@ -24,10 +24,13 @@ def VO(k): TRACE.append(k); return O(k)
 def VR(k): TRACE.append(k); return BadRepr()
 def PV(k): TRACE.append(k); print('p%d' % k); return k * 11
 def PX(k): TRACE.append(k); print('p%d' % k); raise ValueError('e%d' % k)
+def PW(k):
+    import sys
+    TRACE.append(k); sys.stdout.write('w%d' % k)
 '''
 
 # kind -> (source lines, stdout, repr of value or None, is expression statement, trace items)
-KINDS = ['P', 'A', 'V', 'PP', 'VS', 'VE', 'VO', 'VN', 'PV', 'N', 'VR', 'S', 'X']
+KINDS = ['P', 'A', 'V', 'PP', 'VS', 'VE', 'VO', 'VN', 'PV', 'N', 'VR', 'S', 'X', 'W', 'I']
 
 
 def kind_info(kd, k):
@@ -55,13 +58,19 @@ def kind_info(kd, k):
         return ['>>> VR(%d)' % k], '', None, True, [k]
     if kd == 'S':
         return ['>>> P(%d)  # xdoctest: +SKIP' % k], '', None, True, []
+    if kd == 'W':
+        # writes without a trailing newline: the next output continues on the same line
+        return ['>>> PW(%d)' % k], 'w%d' % k, None, True, [k]
+    if kd == 'I':
+        # prints; its want is wrong but ignored (inline +IGNORE_WANT): passes, and consumes the output so far
+        return ['>>> P(%d)  # xdoctest: +IGNORE_WANT' % k], 'p%d\n' % k, None, True, [k]
     if kd == 'X':
         # prints, then raises; always carries its (correct) traceback want: an expected exception
         return ['>>> PX(%d)' % k], 'p%d\n' % k, None, True, [k]
     raise KeyError(kd)
 
 
-OUTLINES = {'P': 1, 'PP': 2, 'PV': 1, 'X': 1}
+OUTLINES = {'P': 1, 'PP': 2, 'PV': 1, 'X': 1, 'I': 1}
 HASVAL = {'V', 'VS', 'VE', 'VO', 'PV'}
 EXPRS = {'P', 'V', 'VS', 'VE', 'VO', 'VN', 'PV'}
 NOCODE = {'N', 'S'}
@@ -87,28 +96,31 @@ class WantSpec(Spec):
         self.max_len = max_len
         self.max_cost = max_cost
         self.min_len = min_len
-        self.rule = ('history = <=%d events (13 statement kinds (incl. print-then-raise with its traceback want) x {no want, ALL, LAST, REPR, 7 corruptions} x '
+        self.rule = ('history = <=%d events (15 statement kinds (incl. print-then-raise with its traceback want, write-without-newline, wrong-but-ignored want) x {no want, ALL, LAST, REPR, 7 corruptions} x '
                      '{no separator, blank line}), at most one corrupted want per doctest, cost <= %d; '
                      'non-trivial = doctest with at least one want' % (max_len, max_cost))
 
     # state: (pending lines, previous want consumed non-empty output, corrupted already, n)
     def init(self):
-        return (0, False, False, 0, False, False)
+        return (0, False, False, 0, False, False, False)
 
     def enabled(self, S, hist):
-        pend, prev, corrupted, n, hadval, prevx = S
+        pend, prev, corrupted, n, hadval, prevx, partial = S
         evs = []
         for kd in KINDS:
             lines = pend + OUTLINES.get(kd, 0)
+            part = partial or kd == 'W'
             wants = [None]
             if kd == 'X':
                 wants = ['TB']
+            elif kd == 'I':
+                wants = ['IGN']
             elif kd not in ('VR', 'S'):
-                if lines or kd in HASVAL:
+                if lines or part or kd in HASVAL:
                     wants.append('ALL')
                     if not corrupted:
                         wants += ['c_repl', 'c_app', 'c_pre']
-                        if (lines if lines else 1) >= 2:
+                        if (lines if lines else 1) >= 2 and not part:
                             wants.append('c_drop')
                         if prev:
                             wants.append('c_stale')
@@ -131,15 +143,18 @@ class WantSpec(Spec):
         return ev_cost(ev)
 
     def step(self, S, ev):
-        pend, prev, corrupted, n, hadval, prevx = S
+        pend, prev, corrupted, n, hadval, prevx, partial = S
         kd, w, sep = ev
         lines = pend + OUTLINES.get(kd, 0)
         hadval = hadval or kd in HASVAL
         if w is not None:
             # prevx: the previous want was the traceback want of a raising statement and it also consumed
             # output written by earlier want-less statements
-            return (0, lines > 0, corrupted or w in CORRUPT, n + 1, hadval, w == 'TB' and pend > 0)
-        return (min(lines, 3), prev, corrupted, n + 1, hadval, prevx)
+            return (0, lines > 0 or partial or kd == 'W', corrupted or w in CORRUPT, n + 1, hadval,
+                    w == 'TB' and (pend > 0 or partial), False)
+        # partial: output is pending whose last line is not terminated yet
+        return (min(lines, 3), prev, corrupted, n + 1, hadval, prevx,
+                (partial or kd == 'W') and not OUTLINES.get(kd, 0))
 
     def final(self, S, hist):
         return len(hist) >= self.min_len and hist[-1][2] == 'none'
@@ -166,7 +181,9 @@ class WantSpec(Spec):
             pend.append(out)
             if w:
                 allout = ''.join(pend)
-                if w == 'TB':
+                if w == 'IGN':
+                    base = 'ZZZ ignored\n'
+                elif w == 'TB':
                     base = 'Traceback (most recent call last):\nValueError: e%d\n' % k
                 elif w == 'ALL' or w.startswith('c_'):
                     base = allout if allout else (val + '\n' if val else '')
@@ -174,6 +191,8 @@ class WantSpec(Spec):
                     base = out
                 elif w == 'REPR':
                     base = val + '\n'
+                if base and not base.endswith('\n'):
+                    base += '\n'          # the want is written as whole lines
                 assert base or w in ('c_repl', 'c_stalev'), (hist, k)
                 if w == 'c_stalev':
                     wt = lastval + '\n'
